@@ -49,7 +49,7 @@ def main():
                 print(f"{prop}-{k}: incomplete (patch/demo missing)")
                 continue
             meta = {"property": prop, "source": "independent sub-agent (property text + scratch worktree only)",
-                    "round": {"b": 2, "c": 3, "d": 4, "e": 5, "f": 6}.get(k[:1], 1)}
+                    "round": {"b": 2, "c": 3, "d": 4, "e": 5, "f": 6, "g": 7}.get(k[:1], 1)}
             # a seed whose lines were later rewritten by a fix: commit is evaluated on the tree it was written for
             base = None
             pm = VERIF / "seeded" / f"{prop}-{k}" / "meta.json"
